@@ -79,6 +79,12 @@ fn exhaustive_alphabet() -> Vec<HOp> {
 // running, classifying, shrinking
 // ------------------------------------------------------------------------------------------
 
+/// VERIF_PROFILE=1 adds wall-time sums per phase to the evidence (never used for a verdict).
+fn profiling() -> bool {
+    static P: std::sync::OnceLock<bool> = std::sync::OnceLock::new();
+    *P.get_or_init(|| std::env::var("VERIF_PROFILE").is_ok())
+}
+
 struct ShardState {
     shrunk_per_sig: std::collections::HashMap<String, u32>,
 }
@@ -90,7 +96,7 @@ fn check_case(c: &HistCase, st: &mut Stats, ss: &mut ShardState) {
     let opts = RunOpts::default();
     let t0 = std::time::Instant::now();
     let (viols, obs) = run_history(c, &opts);
-    if std::env::var("VERIF_PROFILE").is_ok() {
+    if profiling() {
         st.add("prof_us::run_history", t0.elapsed().as_micros() as u64);
         st.add("prof_us::parse", PARSE_NS.with(|c| c.replace(0)) / 1000);
     }
@@ -143,7 +149,7 @@ fn check_case(c: &HistCase, st: &mut Stats, ss: &mut ShardState) {
         *n += 1;
         let t1 = std::time::Instant::now();
         let small = shrink_history(c, &v.clause, &v.cause, &opts);
-        if std::env::var("VERIF_PROFILE").is_ok() {
+        if profiling() {
             st.add("prof_us::shrink", t1.elapsed().as_micros() as u64);
             st.add("prof_us::parse_in_shrink", PARSE_NS.with(|c| c.replace(0)) / 1000);
         }
@@ -204,7 +210,7 @@ impl Check for C06 {
             st.exhaustive.push(format!("all {}^{} = {} histories of length {} (every prefix is monitored, so all shorter histories too) over {{insert/update fact0,fact1 with age 3|8, retract fact0|fact1, fire_all, reset}} for program {}", na, len, total, len, pname));
         }
         // ---- random
-        let per = cli.n(1_500, 70_000);
+        let per = cli.n(2_500, 70_000);
         shards(cli, nthreads, st, |_shard, rng, st| {
             let mut ss = ShardState { shrunk_per_sig: Default::default() };
             for _ in 0..per {
